@@ -264,8 +264,11 @@ CHECKS = {
              "exactly the backed-up content. The model is tied to the code by running the real flows (override, restore after "
              "clean and unclean override, overwrite only, backup only) in a child process that is killed with os._exit at every "
              "executed line of backup_db/create_db/close_db_conn/overwrite_pages/add_page (two database sizes, some followed by "
-             "a second kill during reopen) and checking integrity_check and the pages a new context sees. PARTIAL: SQLite and "
-             "file-system atomicity are assumptions; power loss is not injected.",
+             "a second kill during reopen) and checking integrity_check and the pages a new context sees; after every kill the "
+             "four files are read from copies (database file alone, database with its log, backup, temporary backup name) and "
+             "Coq checks (Model/FsDbObs.v) that this observation is one of the model's crash states of the flow and that the "
+             "model's reopen of it shows what the real reopen showed (about 1300 observations per quick run). PARTIAL: SQLite "
+             "and file-system atomicity are assumptions; power loss is not injected.",
         note=TRUST + "SQLite atomic commit/WAL recovery/backup API and rename atomicity are model definitions.",
         ref="DESIGN.md section 4 C11"),
     "C20": dict(
@@ -287,8 +290,13 @@ CHECKS = {
              "level, required/data module, after/inside a nested invocation) (tight "
              "loops, library loops, recursion; none/pcall/xpcall/nested/loops/coroutine/clear-hook/raise-limit) is compiled to a "
              "Lua module and run with a 1 s limit in its own process under an external kill, checking the abort bound, the "
-             "timeout element, and that the same context then expands benign invocations correctly. PARTIAL: real time is "
-             "outside the model.",
+             "timeout element, and that the same context then expands benign invocations correctly. The model is tied to the "
+             "sandbox by correspondence: programs generated from the model's own grammar (sequencing, while-true, pcall, nested "
+             "#invoke through frame:preprocess, _lua_clear_timeout_hook, _lua_set_timeout) are compiled to Lua modules, run for "
+             "real, and Model.Timeout.exec's verdict (returns / stopped at the deadline / not stopped) is compared inside Coq "
+             "with what happened. PARTIAL: real time is outside the model (one tick = one firing of the count hook; whether "
+             "the hook fires inside or outside a pcall whose body returns is a race the model does not decide, such programs "
+             "are not generated).",
         note=TRUST + "hook delivery, os.time() granularity and C-function duration are runtime behaviour; mw.ustring stubbed.",
         ref="DESIGN.md section 4 C07"),
     "C06": dict(
